@@ -743,6 +743,7 @@ func runC05(c *Check) {
 	c.ruleSpenderListExtendsItsOwn("R16")
 	c.ruleConflictsAccumulatedForEveryInput("R17")
 	c.rulePopulatedBeforeRegistering("R18")
+	c.ruleConflictingConsultsEveryInput("R19")
 
 	// ---- R7 lockset
 	c.lockset("R7", "state", "MemPool", "mutex", c.structFields("state", "MemPool", "mutex"), []string{"state"}, nil, 20)
